@@ -19,6 +19,10 @@ Trusted vocabulary:
   * `Box<dyn AesCipher>` is an arbitrary member of the class `AesDyn` (a state type with one operation
     `crypt_in_place`); the Tie instantiates it with the translated `AesCtrZipKeyStream` (the only
     implementor of the trait) resp. the model's key stream.
+  * A kind `C: AesKind` (the unit structures `Aes128` / `Aes192` / `Aes256` of aes_ctr.rs, translated with their
+    `impl AesKind`) stands for the cipher `type Cipher = aes::AesNNN`; the key sizes of the `aes` crate's ciphers
+    are 16 / 24 / 32 bytes (`AesCrate.*.keySize`).  `C::Cipher::new(GenericArray::from_slice(key))` panics (the
+    length assertion of `from_slice`) unless `key` has that size, and otherwise is the keyed cipher.
 -/
 
 namespace Rs
@@ -65,6 +69,19 @@ def U128.toLE (v : U128) : Bytes := leBytes 16 v.toNat
 structure AesBlock where
   key : Bytes
   deriving DecidableEq, Repr
+
+/-- `C: AesKind`: the key size of `C::Cipher` -/
+class AesKind (C : Type) where
+  keyLen : Nat
+
+/-- key sizes of the ciphers of the `aes` crate (`KeySizeUser::KeySize`) -/
+def AesCrate.Aes128.keySize : Nat := 16
+def AesCrate.Aes192.keySize : Nat := 24
+def AesCrate.Aes256.keySize : Nat := 32
+
+/-- `C::Cipher::new(GenericArray::from_slice(key))` (`KeyInit::new`): `from_slice` asserts the key length -/
+def AesBlock.new (C : Type) [AesKind C] (key : Bytes) : Option AesBlock :=
+  if key.length = AesKind.keyLen C then some ⟨key⟩ else none
 
 /-- `cipher.encrypt_block(GenericArray::from_mut_slice(&mut block))`: `from_mut_slice` asserts the block
 length (16), the block function itself is uninterpreted -/
